@@ -6,6 +6,7 @@ import (
 	"fmt"
 	"sort"
 	"strings"
+	"time"
 
 	gmsl "github.com/matrix-org/gomatrixserverlib"
 	"github.com/matrix-org/gomatrixserverlib/spec"
@@ -136,6 +137,7 @@ func runC06(c *mon.Ctx) {
 	if c.Shard == 0 {
 		c06NoAuthoriserNamed(c, ids)
 		c06SmuggledAuthoriser(c, ids)
+		c06EventsAhead(c, ids)
 	}
 	r := c.RandShared("cases")
 	versions := sortedVersions()
@@ -561,6 +563,55 @@ func c06SmuggledAuthoriser(c *mon.Ctx, ids map[string]*gen.Identity) {
 					c.Failf("verify:required-set:second-authoriser-member-ignored", "v%s: a join naming its authorising user twice (%s) verifies with the signature of %s alone; the auth rules may go by the other member, whose server %s did not sign", ver, content, sSender, sVictim)
 				}
 			})
+		}
+	}
+}
+
+// c06EventsAhead: events dated an hour and nine days ahead of the clock, signed by a key whose record says it is valid
+// for another month, until 2^63 ms or until 2^64-1 ms (timestamps are unsigned): under the strict rule a key speaks for
+// at most seven days from now however far its own limit lies, under the lenient rule until that limit.
+func c06EventsAhead(c *mon.Ctx, ids map[string]*gen.Identity) {
+	s := c06servers[0]
+	now := time.Now()
+	for _, ver := range sortedVersions() {
+		t := ref.Traits(string(ver))
+		if t == nil || ver == gmsl.RoomVersionPseudoIDs {
+			continue
+		}
+		impl := gmsl.MustGetRoomVersion(ver)
+		for _, ahead := range []time.Duration{time.Hour, 9 * 24 * time.Hour} {
+			for _, vu := range []uint64{uint64(now.Add(30 * 24 * time.Hour).UnixMilli()), 1 << 63, 1<<64 - 1} {
+				ps := protoSpec{Type: "m.room.message", Sender: "@u:" + s, RoomID: "!r:" + s, Content: []byte(`{"body":"x"}`), Depth: 3}
+				if t.Domainless {
+					ps.RoomID = "!" + strings.Repeat("A", 43)
+				}
+				name := fmt.Sprintf("verify:event-ahead-of-the-clock:%s:+%s:valid-until=%d", ver, ahead, vu)
+				c.Case(name, map[string]any{"version": ver, "ahead": ahead.String(), "valid_until_ts": vu}, func() {
+					c.Nontrivial(name)
+					ev, err := buildEvent(ver, ps, ids[s], now.Add(ahead))
+					if err != nil {
+						c.Failf("build:refuses-valid-proto", "Build(v%s): %v", ver, err)
+						return
+					}
+					p, err := impl.NewEventFromTrustedJSON(ev.JSON(), false)
+					if err != nil {
+						c.Failf("harness:reparse", "%v", err)
+						return
+					}
+					db := newMemKeyDB()
+					db.keys[keyReq{ServerName: spec.ServerName(s), KeyID: "ed25519:main"}] = keyRes{VerifyKey: gmsl.VerifyKey{Key: spec.Base64Bytes(ids[s].Pub)}, ValidUntilTS: spec.Timestamp(vu)}
+					verr := gmsl.VerifyEventSignatures(context.Background(), p, &gmsl.KeyRing{KeyDatabase: db}, userIDForSender)
+					c.Count("events_ahead_of_the_clock")
+					want := !(t.StrictValidity && ahead > 7*24*time.Hour)
+					if want != (verr == nil) {
+						dir := "rejects-valid"
+						if verr == nil {
+							dir = "accepts-invalid"
+						}
+						c.Failf("verify:"+dir+":event-ahead-of-the-clock", "v%s (strict rule: %v): an event dated %s ahead, signed by a key with valid_until_ts %d: VerifyEventSignatures = %v", ver, t.StrictValidity, ahead, vu, verr)
+					}
+				})
+			}
 		}
 	}
 }
